@@ -167,7 +167,10 @@ def streams(tier, rng, P, only=None, cases=None):
                "t.Random(%s) " % M, "q.Random(%s) " % M, "o.Random(%s) " % M, "INT A=%s; " % M, "TIME(%s) l%%%s " % (M, M), "r%%%s " % M, "r%%%s r%%%s " % (M, M), "Tempo(%s) " % M,
                "CH(%s) " % M, "PB(%s) " % M, "p%s " % M, "BR(%s) " % M, "Slur(1,%s) " % M, "Slur(2,%s) " % M, "Slur(3,%s) " % M, "l.onNote(%s,%s) " % (M, M), "t.onNote(%s,%s) " % (M, N),
                "o.onNote(%s) " % M, "q.onNote(%s) " % M, "v.onNote(%s) " % M, "v.onTime(%s,%s,96) " % (M, N), "TimeSignature(%s,4) " % M, "RandomSeed(%s) " % M,
-               "t.Random=4 t%s " % M, "v.Random=4 v%s " % M, "q.Random=4 q%s " % M, "o.Random=4 o%s " % M, "t.Random=4 t%s " % N, "SysEx={%s,%s} " % (M, M), "SysEx$=f0,{%s,%s},f7; " % (M, M)]
+               "t.Random=4 t%s " % M, "v.Random=4 v%s " % M, "q.Random=4 q%s " % M, "o.Random=4 o%s " % M, "t.Random=4 t%s " % N, "SysEx={%s,%s} " % (M, M), "SysEx$=f0,{%s,%s},f7; " % (M, M),
+               # ... and at the other edge: zero and tiny values of what later commands divide by or step with
+               "TimeBase(0) ", "TimeBase(1) ", "TimeBase=3 ", "TimeBase(-5) ", "TimeBase(%s) " % M, "TimeBase(%s) " % N, "TimeSignature(0,0) ", "TimeSignature(1,1) ", "l%0 ", "l0 ", "q0 ", "v0 ", "Tempo(0) ",
+               "MeasureShift(%s) " % N, "TimeBase(2) TimeSignature(1,64) "]
         suf = ["", "c...", "c....", "c..", "c^%" + M + "..", "c^%" + M + "...", "c^%" + M + "....", "r....", "n60,4...", "'ce'4...", "{cd}4....", "l4... c", "c", "c&d e", "'ce' d", "{cd}4", "q++ c", "q-- c", "v++ c", "( c", ") c", "> c", "< c", "` c", '" c', "q__5 c", "v__5 c", "r c", "n60", "n60& n62", "c^c", "l4 c", "[3 c]",
                "Sub{c} d", "PLAY({c},{d})", "TrackSync c", "? c", "y1,5 c", "y1.onNote(1,2) c", "Cresc(1) c", "PB.T(0,1,!8) c", "M.onTime(0,9,9) c", "TempoChange(100,120,!4) c", "TimeSig(3,4) TIME(2:1:0) c"]
         for pi, p_ in enumerate(pre):
